@@ -1,24 +1,66 @@
 package main
 
 func init() {
+	T := "static analysis of the type-checked AST and go/ssa form: "
+	propInfo["C01"] = PropInfo{
+		Explanation: "QR: format/version BCH words, the 160-row block table, alphanumeric alphabet and mode indicators, mask formulas, format/version bit coordinates, character-count widths, capacity guard, padding constants, numeric-mode digit validation (R-ATOI) and the channel pipelines are as ISO 18004 prescribes.",
+		NotDecided:  "bit-stream assembly for arbitrary content, interleaving order, zig-zag placement, Reed-Solomon arithmetic, mask choice: the decoded content of a rendered symbol is not computed.",
+		Technique:   T + "constant-folded tables vs closed forms (BCH, geometry) and embedded ISO table; polynomial normal forms of mask/coordinate formulas; DigitOnly validation-loop recognition",
+	}
+	propInfo["C04"] = PropInfo{
+		Explanation: "PDF417: row-indicator decision tables (cluster -> formula) equal ISO 15438 and agree between the left and right sibling; Reed-Solomon factor tables equal the closed form over GF(929); codeword pattern tables satisfy the cluster invariants; text sub-mode tables and compaction constants.",
+		NotDecided:  "the compaction state machine, dimension choice and the RS recurrence for arbitrary data.",
+		Technique:   T + "decision-table extraction + polynomial normal forms; constant-folded tables vs closed forms",
+	}
 	propInfo["C05"] = PropInfo{
-		Explanation: "Code 128: all 107 bar patterns equal ISO 15417 and satisfy its closed-form invariants; the code-set character tables map each character to its symbol value; start/code/stop symbol constants.",
+		Explanation: "Code 128: all 107 bar patterns equal ISO 15417 and satisfy its closed-form invariants; the code-set character tables map each character to its symbol value; start/code/stop symbol constants; FNC decision tables; check-character identity.",
 		NotDecided:  "the code-set chooser's transition behaviour and the round trip for all strings.",
-		Technique:   "static: constant-folded table comparison against embedded standard + closed-form invariants",
+		Technique:   T + "constant-folded table comparison against embedded standard + closed-form invariants",
 	}
 	propInfo["C06"] = PropInfo{
-		Explanation: "EAN: the L/G/R digit sets and first-digit parity rows equal the GS1 tables (R = complement of L, G = reverse of R).",
-		NotDecided:  "symbol assembly for all digit strings.",
-		Technique:   "static: constant-folded table comparison against closed-form relations",
+		Explanation: "EAN: L/G/R digit sets and parity rows equal the GS1 tables; calcCheckNum is only applied to 7/12-digit strings (LenSet typestate); the reported check value is the last digit of the content; the check digit function is s -> (10 - s mod 10) mod 10 with weight 3 on the right-most digit.",
+		NotDecided:  "symbol assembly for all digit strings (guards, set selection per position) beyond the listed rules.",
+		Technique:   T + "table comparison vs closed-form relations; LenSet dataflow; Mod-10 transfer-table tabulation; reach conditions",
 	}
 	propInfo["C07"] = PropInfo{
-		Explanation: "Code 39/93: character tables (values and patterns) equal the standards' construction; full-ASCII tables decode to the right character for all 128 code points.",
+		Explanation: "Code 39/93: character tables (values and patterns) equal the standards' construction; full-ASCII tables decode to the right character for all 128 code points; check characters are appended exactly when requested (control dependence on includeChecksum, siblings agree).",
 		NotDecided:  "assembly and round trip for all strings.",
-		Technique:   "static: constant-folded table comparison against embedded standard + construction rule",
+		Technique:   T + "table comparison vs construction rule; reach-condition implication (control dependence)",
 	}
 	propInfo["C08"] = PropInfo{
-		Explanation: "Codabar and 2-of-5: element patterns, start/stop patterns and widths equal the standards.",
+		Explanation: "Codabar and 2-of-5: element patterns, start/stop patterns and widths equal the standards; the 2-of-5 check-digit helper computes s -> (10 - s mod 10) mod 10 with weight 3 on the right-most digit (sibling of the EAN function).",
 		NotDecided:  "assembly and round trip for all strings.",
-		Technique:   "static: constant-folded table comparison against embedded standard",
+		Technique:   T + "table comparison against embedded standard; Mod-10 transfer-table tabulation over the accumulator",
+	}
+	propInfo["C10"] = PropInfo{
+		Explanation: "no index built from a % of a possibly negative dividend (NEGMOD, lower-bound domain); strconv parsers only see digit-validated strings (R-ATOI); entry points return exactly one of (barcode, error); error results are not dropped; capacity/length guards have the boundary operator the standard implies; producers close their channels.",
+		NotDecided:  "'exactly the representable inputs' for the stateful choosers; termination of data-dependent loops; index bounds in general.",
+		Technique:   T + "lower-bound abstract domain; validation-loop recognition; return-shape and error-discipline rules; reach conditions vs reference guards",
+	}
+	propInfo["C11"] = PropInfo{
+		Explanation: "colour threading: every ColorScheme parameter reaches a colour field or colour parameter and has no other use; no default scheme where a caller's scheme is in scope; plain wrappers use ColorScheme16; every colour-carrying struct allocation initialises the field; At/ColorModel/ColorScheme/Bounds/Metadata/Content method shapes.",
+		NotDecided:  "pixel values of rendered symbols.",
+		Technique:   T + "value-flow (def-use through phis, spills, calls) with sink classification; method-shape rules via normal forms",
+	}
+	propInfo["C12"] = PropInfo{
+		Explanation: "the level parameter reaches the format bits / row indicators / check-word counts: PDF417 row-indicator formulas carry 3*level; QR format words per level are BCH-correct and indexed by the version row's level; block table equals ISO.",
+		NotDecided:  "validity of the Reed-Solomon words themselves.",
+		Technique:   T + "decision-table extraction, value-flow and table comparison",
+	}
+	propInfo["C14"] = PropInfo{
+		Explanation: "EAN: CheckSum() is the digit value of the content's last character on every feasible path; calcCheckNum only sees data digits; Code 39/128: the value handed to the constructor is the modulo-43/103 value whose character is drawn; no decimal parsing of check characters (R-ATOI); storage and forwarding through base1DCodeIntCS and the scaled wrapper.",
+		NotDecided:  "numeric equality for all contents.",
+		Technique:   T + "LenSet typestate, value identity through SSA def-use, validation-loop recognition",
+	}
+	propInfo["C15"] = PropInfo{
+		Explanation: "no slice parameter of an encoder is retained or written through (ALIAS, inter-procedural, interface methods resolved to all repo implementations); shared-state inventory; map ranges are order-independent; import/effect allow-list.",
+		NotDecided:  "equality with a fresh process as such.",
+		Technique:   T + "alias value-flow to depth 5; inventories with floors",
+	}
+	propInfo["C17"] = PropInfo{
+		Explanation: "GF arithmetic never indexes the antilog table with a possibly negative % result (NEGMOD, with the field-element invariant LogTbl[i] >= 0 derived from all stores); every constructed field uses a primitive polynomial of the right degree.",
+		NotDecided:  "the field laws for all operands, the polynomial division identity and the RS root property (numerical).",
+		Technique:   T + "lower-bound abstract domain with program-wide field-element invariant; constant evaluation of constructor arguments + primitivity test",
+		Assumptions: []string{"code outside the repository does not write the exported LogTbl/ALogTbl fields"},
 	}
 }
